@@ -362,6 +362,9 @@ def run(ck):
     ck.extra["pairing_instances"] = na
     ck.extra["exemptions"] = {f"{k[0]}.{k[1]}": v for k, v in B_EXEMPT_ATTR.items()}
     ck.require_count("C04.a", 5, "piecewise return pairs x3, scatter loop, fallback; DTLR predict_proba x2, decision_path x2")
+    ck.require_count_in("C04.a", "_DecisionTreeLogisticRegressionNode.predict_proba", 2, "rows gathered for each child and its probabilities scattered back")
+    ck.require_count_in("C04.a", "_DecisionTreeLogisticRegressionNode.decision_path", 2, "rows and indices gathered for each child")
+    ck.require_count_in("C04.a", "PiecewiseEstimator._apply_predict_method", 3, "scatter loop, fallback, single exit")
     ck.require_count("C04.b", 15, "estimator classes with predict-like methods")
     ck.require_count("C04.c", 2, "setattr sites and result constructions of clone_with_fitted_parameters")
     ck.require_count("C04.d", 2, "criterion classes")
